@@ -54,6 +54,7 @@ type x3Scn struct {
 	sysSubs  []int     // users with a subscription row on 'sys' created for this scenario
 	sysDirty bool      // rows were added after 'sys' was loaded
 	p2p      []c03xP2P // the peer-to-peer topics of the scenario
+	c03ozRoots map[int]bool // sessions authenticated at level root (zz_verif_c03oz_test.go)
 }
 
 type c03xP2P struct {
@@ -357,6 +358,7 @@ func (x *x3Scn) emitExtra() {
 		fmt.Fprintf(out, "store p2p %d loaded=1 ro=%d seqid=%d lastid=%d users=%s sess=%s msgs=%s\n", k+1, pro, pd.SeqId, t.lastID,
 			strings.Join(us, ","), strings.Join(sl, ","), strings.Join(pm, ","))
 	}
+	x.c03ozEmit()
 }
 
 // own ops print the same block shape as vScn.op
@@ -404,6 +406,9 @@ func (x *x3Scn) begin(flt string) string {
 func (x *x3Scn) xop(w []string) {
 	sc := x.vScn
 	flt, kind, a := w[0], w[1], w[2:]
+	// kind@obo: the request carries extra.obo (sub, leave, pub to the group topic)
+	kind, obo, hasObo := c03ozSplitKind(kind)
+	defer x.c03ozReflag()
 	at := func(i int) int { v, _ := strconv.Atoi(a[i]); return v }
 	quiet := x.c03xQuiet()
 	if x.delSid != 0 && kind != "pub" && kind != "delend" {
@@ -538,6 +543,10 @@ func (x *x3Scn) xop(w []string) {
 		}
 		sc.send(at(0), `{"pub":{"id":"`+id+`","topic":"`+peer+`","content":`+a[2]+ne+`}}`)
 		x.tail(vWaitQuiet(quiet), flt)
+	case "osetx":
+		x.c03ozSetOp(flt, at(0), 0, at(1), a[2], a[3])
+	case "p2posetx":
+		x.c03ozSetOp(flt, at(0), at(1), 0, a[2], a[3])
 	case "p2punload":
 		x.begin("N")
 		if k := at(0); k >= 1 && k <= len(x.p2p) {
@@ -555,11 +564,19 @@ func (x *x3Scn) xop(w []string) {
 			if a[2] == "1" {
 				ne = `,"noecho":true`
 			}
-			sc.send(at(0), `{"pub":{"id":"`+id+`","topic":"`+sc.topic+`","content":`+a[1]+ne+`}}`)
+			extra := ""
+			if hasObo {
+				extra = (&c04xScn{vScn: sc, roots: x.c03ozRoots}).c04xExtra(obo)
+			}
+			sc.send(at(0), `{"pub":{"id":"`+id+`","topic":"`+sc.topic+`","content":`+a[1]+ne+`}`+extra+`}`)
 			x.tail(xWaitQuietWindow([]string{sc.topic}), "N")
 			return
 		}
-		sc.op(w)
+		if hasObo {
+			(&c04xScn{vScn: sc, roots: x.c03ozRoots}).c04xOp(append([]string{flt, kind}, a...), obo)
+		} else {
+			sc.op(w)
+		}
 		if (flt != "N" && flt[0] == 'C') || kind == "restart" {
 			x.c03xUnloadP2P()
 			xReloadSys()
@@ -635,7 +652,7 @@ func TestVerifC03x(t *testing.T) {
 			sc.gen = scnCount
 			sc.pending(kv)
 			xReloadSys()
-			x = &x3Scn{vScn: sc, admin: vNewSession(9000+scnCount, xAdminUid, auth.LevelRoot)}
+			x = &x3Scn{vScn: sc, admin: vNewSession(9000+scnCount, xAdminUid, auth.LevelRoot), c03ozRoots: map[int]bool{}}
 			x.sysBase = memverif.DumpTopic("sys").SeqId
 			fmt.Fprintf(out, "scn %s\n", w[1])
 		case "user":
@@ -684,7 +701,12 @@ func TestVerifC03x(t *testing.T) {
 			si, _ := strconv.Atoi(w[1])
 			ui, _ := strconv.Atoi(w[2])
 			x.sessUser[si] = ui
-			x.sess[si] = vNewSession(si, x.uids[ui], auth.LevelAuth)
+			lvl := auth.LevelAuth
+			if len(w) > 3 && w[3] == "r" {
+				x.c03ozRoots[si] = true
+				lvl = auth.LevelRoot
+			}
+			x.sess[si] = vNewSession(si, x.uids[ui], lvl)
 		case "op":
 			if x.sysDirty {
 				// 'sys' was loaded before its rows of this scenario existed
